@@ -3,11 +3,15 @@
 //       c05 parse <syn> <hexText>          -> fail | astWire
 //       c05 printparse <syn> <astWire>     -> noparse <hex> | 1 <hex> | 0 <hex>
 //       c05 roundtrip <src> <dst> <hexText>-> nop | noparse <hex> | 1 <hex> | 0 <hex>
+//       c05 convert <dst> <hexText>        -> hex of ConvertTo(text, dst)                      (model: Model/Convert.lean)
+//       c05 convback <src> <hexText>       -> nop | noparse <hex> | 1 <hex> | 0 <hex>   (to the other syntax and back)
+//       c05 convidem[-amb] <dst> <hexText>-> nop | 1 <hex> | 0 <hex>                     (converted twice = converted once)
 //       c05 rt-overflow / rt-translit <src> <dst> <hexText>, c05 pp-translit / pp-overflow <syn> <astWire>:
 //         the same two operations, emitted ONLY by the dedicated generators of the two recorded finding
 //         classes (K5 numeric overflow, K7 transliteration onto a keyword; known_findings.json matches
 //         these op names); the general generators drop any case of those classes.
 #include "syntax_gen.hpp"
+#include "ccl/rslang/RSGenerator.h"
 
 using namespace sg;
 using vh::hex;
@@ -31,6 +35,40 @@ static std::string roundTrip(const std::string& text, Syntax src, Syntax dst) {
   if (!p2.Parse(t, dst)) return "noparse " + hex(t);
   const SyntaxTree expected = translitTree(p1.AST(), dst);
   return std::string(p2.AST() == expected ? "1 " : "0 ") + hex(t);
+}
+
+// ---- ccl::rslang::ConvertTo (the entry point the Python package and the UI use) ------------------------------
+static Syntax otherSyn(Syntax s) { return s == Syntax::MATH ? Syntax::ASCII : Syntax::MATH; }
+static std::string convertOnce(const std::string& text, Syntax target) { return hex(ccl::rslang::ConvertTo(text, target)); }
+// there and back: the text comes back with the tree it had (local names transliterated once)
+static std::string convertBack(const std::string& text, Syntax src) {
+  Parser p1;
+  if (!p1.Parse(text, src)) return "nop";
+  const std::string a = ccl::rslang::ConvertTo(text, otherSyn(src));
+  const std::string b = ccl::rslang::ConvertTo(a, src);
+  Parser p2;
+  if (!p2.Parse(b, src)) return "noparse " + hex(b);
+  const SyntaxTree expected = translitTree(p1.AST(), Syntax::ASCII);
+  return std::string(p2.AST() == expected ? "1 " : "0 ") + hex(b);
+}
+// converting a converted text again to the same target changes nothing
+static std::string convertIdem(const std::string& text, Syntax target) {
+  Parser p1;
+  if (!p1.Parse(text, otherSyn(target))) return "nop";
+  const std::string a = ccl::rslang::ConvertTo(text, target);
+  const std::string aa = ccl::rslang::ConvertTo(a, target);
+  return std::string(a == aa ? "1 " : "0 ") + hex(aa);
+}
+// texts that are valid in BOTH syntaxes with different trees once converted: `*` is the product in ASCII and the
+// multiplication in MATH (so `×`, `*` and `\\multiply` all lead there), and the ASCII keyword of an EMPTY definition
+// (`X1 \\defexpr`) reads in MATH as `X1 \\ defexpr` (set difference with a local name). Recorded finding class.
+static bool isAmbiguous(const std::string& t) {
+  if (t.find('*') != std::string::npos || t.find("\xC3\x97") != std::string::npos || t.find("\\multiply") != std::string::npos) return true;
+  size_t e = t.size();
+  while (e > 0 && (t[e - 1] == ' ' || t[e - 1] == '\t' || t[e - 1] == '\n')) --e;
+  const std::string core = t.substr(0, e);
+  const auto ends = [&](const std::string& suf) { return core.size() >= suf.size() && core.compare(core.size() - suf.size(), suf.size(), suf) == 0; };
+  return ends(":==") || ends("\\defexpr");
 }
 
 static GAst zeroed(GAst g) {
@@ -66,6 +104,23 @@ struct Ctx {
     const char* op = (known & K7) ? "rt-translit" : (known & K5) ? "rt-overflow" : "roundtrip";
     S.add(known ? "K:" + knownName(known) + "(" + cls + ")" : cls,
           std::string("c05 ") + op + " " + synName(src) + " " + synName(dst) + " " + hex(text), [=] { return roundTrip(text, src, dst); });
+    if (src != dst) convertOps(cls, known, src, text);
+  }
+  // ConvertTo on the same text: result (correspondence), there-and-back (meaning preserved), idempotence.
+  // The recorded-finding classes keep their own op names; idempotence on texts with `*` / `×` is a class of its own
+  // (one spelling, two meanings: product in ASCII, multiplication in MATH).
+  void convertOps(const std::string& cls, unsigned known, Syntax src, const std::string& text) {
+    const Syntax dst = otherSyn(src);
+    const std::string suffix = (known & K7) ? "-translit" : (known & K5) ? "-overflow" : "";
+    const std::string c = known ? "K:" + knownName(known) + "(" + cls + ")" : cls;
+    S.add(c, "c05 convert" + suffix + " " + synName(dst) + " " + hex(text), [=] { return convertOnce(text, dst); });
+    S.add(c, "c05 convback" + suffix + " " + synName(src) + " " + hex(text), [=] { return convertBack(text, src); });
+    S.add(c, "c05 convidem" + (suffix.empty() && isAmbiguous(text) ? std::string("-amb") : suffix) + " " + synName(dst) + " " + hex(text), [=] { return convertIdem(text, dst); });
+  }
+  // texts that need not parse: ConvertTo must hand them back unchanged (or convert them if they do parse)
+  void convertAny(const std::string& cls, const std::string& text) {
+    for (Syntax dst : { Syntax::MATH, Syntax::ASCII })
+      S.add(cls, std::string("c05 convert ") + synName(dst) + " " + hex(text), [=] { return convertOnce(text, dst); });
   }
   // text rendered from a tree: classification comes from the tree
   void roundtripTree(const std::string& cls, Syntax src, Syntax dst, const GAst& g, int parenMode, int wsMode) {
@@ -136,6 +191,7 @@ int main() {
     const std::string t = soupText(rng, rng.chance(1, 2) ? 4 : 12);
     if (t.size() > 190) continue;
     for (Syntax syn : syns) { C.lex("D:soup", syn, t); C.parse("D:soup", syn, t); }
+    if (i % 2 == 0) C.convertAny("D:soup", t);
   }
   for (Syntax syn : syns) {
     const auto ex = exhaustiveTrees(namesAscii());
@@ -150,6 +206,7 @@ int main() {
       const std::string txt = mutateToks(rd.toks, syn, rng);
       if (txt.size() > 190) continue;
       C.lex("D:mutation", syn, txt); C.parse("D:mutation", syn, txt);
+      if (i % 2 == 0) C.convertAny("D:mutation", txt);
     }
   }
   // valid texts through lex/parse as well (positive cases of the same ops)
@@ -218,6 +275,13 @@ int main() {
       C.roundtripTree("K7:control", M, M, t, 0, 0);
     }
   }
+  // texts without any byte that hints MATH (seeded change C05-3: a converter that guesses the source syntax), with the
+  // spellings that mean different things in the two syntaxes
+  for (const std::string& t : { std::string("card(X1)*card(X2)"), std::string("X1\\X2"), std::string("X1*X2"), std::string("a*b"), std::string("D1\\D2*D3"),
+                                 std::string("pr1(S1)*pr2(S1)"), std::string("(a*b)*c"), std::string("F1[X1*X1]"), std::string("card(X1\\X2)*2") })
+    C.convertOps("E:nohint", 0, M, t);
+  for (const std::string& t : { std::string("X1*X2"), std::string("X1 \\union X2"), std::string("card(X1) \\multiply card(X2)"), std::string("a \\in X1*X2"), std::string("X1 \\setminus X2") })
+    C.convertOps("E:nohint", 0, A, t);
   // sure failures through roundtrip (`nop`)
   for (Syntax src : syns)
     for (Syntax dst : syns) {
